@@ -13,6 +13,8 @@ func init() {
 }
 
 func runC05(c *Ctx) {
+	borrow(c, "O8", "C06", "O10", "cache", "a victim wrongly reported as protected is never displaced")
+	borrow(c, "O9", "C01", "O7", "BindPod failure -> unallocate", "resources of a pod whose bind failed stay consumed in the session and a later job that fits is left pending")
 	p, fx := c.P, c.Fx
 	const pkgCommon = "pkg/scheduler/actions/common"
 	const pkgUtils = "pkg/scheduler/actions/utils"
